@@ -63,7 +63,7 @@ impl Property for C16 {
         proptest::collection::vec(any::<u16>(), 0..(max_ops * 8 + 8))
             .prop_map(move |genes| {
                 let mut g = Genes::new(genes);
-                let cfg = HistCfg { max_ops, safe_strings: true, w_struct: 2, w_attr: 0, w_chardata: 12, w_create: 3, huge_offsets: true, max_doc: 5, w_compound: 3, seams: true };
+                let cfg = HistCfg { max_ops, safe_strings: true, w_struct: 2, w_attr: 0, w_chardata: 12, w_create: 3, huge_offsets: true, max_doc: 5, w_compound: 3, seams: true, ..Default::default() };
                 hist::gen_history(&mut g, &cfg)
             })
             .boxed()
